@@ -64,7 +64,11 @@ StaleReplaced(U, g, decls, key, v) == \E nq \in 2..Len(g.nodes) : HasArt(U, g.no
      \E ev \in El(ArtOf(U, g.nodes[nq].name).versions) : ev.v # g.nodes[nq].v /\ SoftDeclares(ev, key, v)
         \* the range that excludes the replaced version is met after that version was expanded - or is not visible in the graph any more
         /\ LET rs == {y \in decls : ~IsSoft(y.r) /\ y.d.name = g.nodes[nq].name /\ ~MSat[y.r][ev.v]} IN (\E y \in rs : nq < y.n) \/ (rs = {} /\ AnyRange(U))
-StaleOrder(U, decls, key, v) == (\E y \in decls : KeyOfDep(y.d) = key /\ IsSoft(y.r) /\ MVRq[y.r].v = v) /\ AnyRange(U)
+\* (the farther declaration may be one the final graph does not follow - excluded on the path it is reached by now - but
+\* which was followed in the abandoned attempt: any declaration of a version that is in the graph counts)
+StaleOrder(U, g, decls, key, v) == /\ AnyRange(U)
+                                   /\ \/ \E y \in decls : KeyOfDep(y.d) = key /\ IsSoft(y.r) /\ MVRq[y.r].v = v
+                                      \/ \E n \in 2..Len(g.nodes) : HasArt(U, g.nodes[n].name) /\ SoftDeclares(VerOfArt(U, g.nodes[n].name, g.nodes[n].v), key, v)
 \* the declaring package is absent from the graph, or one of its flavours (type / classifier) that the universe declares is
 FlavourAbsent(U, g, name) == \E q \in El(U) : \E ev \in El(q.versions) : \E d \in El(ev.deps) : d.name = name /\ ~\E e \in El(g.edges) : KeyOfEdge(g, e) = KeyOfDep(d)
 StaleAbandoned(U, g, key, v) == \E p \in El(U) : ((~\E k \in 1..Len(g.nodes) : g.nodes[k].name = p.name) \/ FlavourAbsent(U, g, p.name))
@@ -104,7 +108,7 @@ MavenViolations(U, root, g, softOnly) ==
   \cup UNION {LET sel == {g.nodes[e.t].v : e \in {e \in El(g.edges) : KeyOfEdge(g, e) = KeyOfDep(x.d)}} IN
              {<<IF StaleReplaced(U, g, decls, KeyOfDep(x.d), v) THEN "stale-soft-requirement-of-a-version-replaced-after-it-was-expanded"
                 ELSE IF StaleAbandoned(U, g, KeyOfDep(x.d), v) THEN "stale-soft-requirement-of-an-abandoned-branch"
-                ELSE IF StaleOrder(U, decls, KeyOfDep(x.d), v) THEN "stale-order-a-farther-declaration-met-first-in-an-abandoned-attempt-wins"
+                ELSE IF StaleOrder(U, g, decls, KeyOfDep(x.d), v) THEN "stale-order-a-farther-declaration-met-first-in-an-abandoned-attempt-wins"
                 ELSE "nearest-declaration-does-not-win", x.n>> : v \in {v \in sel : v # MVRq[x.r].v}} :
           x \in {x \in decls : ~RangeAnywhere(U, KeyOfDep(x.d)) /\ IsSoft(x.r)
                                 /\ \A y \in decls : KeyOfDep(y.d) = KeyOfDep(x.d) => (y = x \/ Before(x, y))}}
